@@ -203,7 +203,14 @@ def run_batch(bdir, prop, tier, seed, count, wallcap, outdir, nworkers):
                 pass
             tail = open(os.path.join(outdir, "worker-%d.log" % w), "rb").read()[-4000:].decode("utf8", "replace")
             if rc == 12 or prog.startswith("WALL-WATCHDOG"):
-                trouble.append("worker %d exit %d: %s\n%s" % (w, rc, prog[:3000], tail))
+                detail = ""
+                for hf in sorted(glob.glob(os.path.join(outdir, "harness-*.json")))[:2]:
+                    try:
+                        hv = json.load(open(hf))
+                        detail += "\n  harness verdict (%s): %s" % (os.path.basename(hf), (hv["verdict"].get("detail") or "")[:1500])
+                    except Exception:
+                        pass
+                trouble.append("worker %d exit %d: %s\n%s%s" % (w, rc, prog[:3000], tail, detail))
                 continue
             m = re.match(r"run (\d+) seed (\d+)", prog)
             if m:
